@@ -360,7 +360,7 @@ pub fn run(ctx: &Ctx) {
 	}
 
 	// --- 4. every accepted character can be serialised into a certificate and decodes identically
-	let do_ser = ctx.replay.as_ref().map_or(true, |r| r.workload == "serialise");
+	let do_ser = ctx.replay.as_ref().map_or(true, |r| r.workload.starts_with("serialise"));
 	if do_ser {
 		let mut jobs: Vec<(StrKind, Vec<char>)> = Vec::new();
 		for kind in ALL_KINDS {
@@ -407,6 +407,31 @@ pub fn run(ctx: &Ctx) {
 			}
 			ctx.distinct(fnv64(format!("ser{:?}{}", kind, text).as_bytes()));
 		});
+		// position matters too (trimming, normalising a leading/trailing character): every accepted
+		// character alone, first, last and in the middle of a short text
+		if !miri {
+			let mut pos_jobs: Vec<(StrKind, char)> = Vec::new();
+			for kind in ALL_KINDS {
+				let mut cs: Vec<char> = (0u32..0x300).filter_map(char::from_u32).collect();
+				cs.extend(['\u{7ff}', '\u{800}', '\u{d7ff}', '\u{e000}', '\u{feff}', '\u{fffd}', '\u{ffff}', '\u{10000}', '\u{10ffff}']);
+				pos_jobs.extend(cs.into_iter().filter(|c| kind.admits(*c)).map(|c| (kind, c)));
+			}
+			par_for(pos_jobs.len() as u64, ctx.threads, |i| {
+				let case = CaseId::new("serialise-position", 0, i);
+				if let Some(r) = &ctx.replay {
+					if r.workload != "serialise-position" || r.index != i {
+						return;
+					}
+				}
+				let (kind, c) = pos_jobs[i as usize];
+				for text in [format!("{}", c), format!("{}x", c), format!("x{}", c), format!("x{}y", c), format!("{}{}", c, c)] {
+					ctx.count("enum:serialise_positions");
+					if !check_serialise(ctx, &case, &key, kind, &text) {
+						break;
+					}
+				}
+			});
+		}
 		// empty strings and a long one per kind
 		let case = CaseId::new("serialise", 0, u64::MAX);
 		for kind in ALL_KINDS {
